@@ -74,6 +74,12 @@ ConnsHttpOK(e) == LET x == e.expect IN
    /\ {<<e.conns[i].ip, e.conns[i].port>> : i \in 1..Len(e.conns)} = Denote(x.target)
    /\ \A i \in 1..Len(e.conns) : e.conns[i].n \in 1..x.maxConns
    /\ Len(e.records) = x.nrecords
+   /\ (x.hosts => /\ {<<e.records[i].ip, e.records[i].port>> : i \in 1..Len(e.records)} = Denote(x.target)      \* every server answers: each target reported once,
+                  /\ Len(e.records) = Cardinality(Denote(x.target)))                                              \* under its own address
+\* C09 / C10 through the command's option wiring: with servers that accept and stall, the scan is over within the bound derived from -t
+TimeOK(e) == LET x == e.expect IN
+   /\ e.exit = 0 /\ e.exitT <= x.boundUs /\ Len(e.records) = x.nrecords
+   /\ {<<e.conns[i].ip, e.conns[i].port>> : i \in 1..Len(e.conns)} = Denote(x.target)
 \* C19 on the wire: consecutive complete passes (each a permutation of the subnet), at least the rescan interval apart, until Ctrl-C;
 \* C14: with de-duplication every host is printed once however often it answers
 LiveOK(e) == LET x == e.expect n == x.naddr full == Len(e.probes) \div n IN
@@ -96,12 +102,14 @@ RunOK(e) == LET x == e.expect IN
                                                   /\ \A i \in 1..Len(e.probes) : DstOf(x, e.probes[i]) \in Denote(x.target))
           [] x.kind = "app" -> (F("coverage") => e.exit = 0 /\ ConnsOK(e))
           [] x.kind = "apphttp" -> (F("coverage") => e.exit = 0 /\ ConnsHttpOK(e))
+          [] x.kind = "apptime" -> (F("time") => TimeOK(e))
           [] x.kind = "live" -> (F("live") => LiveOK(e))
           [] x.kind = "packet" -> /\ (F("coverage") => e.exit = 0 /\ CoverageOK(e))
                                   /\ (F("source") => SourceOK(e))
                                   /\ (F("delay") => DelayOK(e))
                                   /\ (F("reply") => ReplyOK(e))
-                                  /\ (F("rate") /\ x.rate.n > 0 => SpacingOK(e)))
+                                  /\ (F("rate") /\ x.rate.n > 0 => SpacingOK(e))
+                                  /\ (F("errors") /\ x.nerr >= 0 => Len(e.stderr) = x.nerr))
 VARIABLE l
 Init == l = 1
 Next == l <= Len(Trace) /\ RunOK(Trace[l]) /\ l' = l + 1
@@ -112,7 +120,7 @@ Which(e) == LET x == e.expect IN
    IF ~Clean(e) THEN "not clean (panic / killed / incomplete output / capture drops)"
    ELSE IF x.kind = "packet" THEN
         (IF F("coverage") /\ (e.exit # 0 \/ ~CoverageOK(e)) THEN "coverage" ELSE IF F("source") /\ ~SourceOK(e) THEN "source" ELSE IF F("delay") /\ ~DelayOK(e) THEN "exit delay"
-         ELSE IF F("reply") /\ ~ReplyOK(e) THEN "reply shape" ELSE "rate")
+         ELSE IF F("reply") /\ ~ReplyOK(e) THEN "reply shape" ELSE IF F("errors") /\ x.nerr >= 0 /\ Len(e.stderr) # x.nerr THEN "errors on stderr" ELSE "rate")
    ELSE x.kind
 TraceAccepted == IF TLCGet(1) = Len(Trace) + 1 THEN PrintT(<<"TRACE ACCEPTED", Len(Trace)>>)
                  ELSE Print(<<"REJECTED at event", TLCGet(1), [name |-> Trace[TLCGet(1)].name, clause |-> Which(Trace[TLCGet(1)])]>>, FALSE)
